@@ -14,7 +14,7 @@ extern crate aws_lc_fips_sys as aws_lc;
 extern crate aws_lc_sys as aws_lc;
 
 use aws_lc::{
-    BN_bin2bn, BN_bn2bin, BN_num_bytes, EC_GROUP, EC_KEY, EC_KEY_get0_private_key,
+    BN_bin2bn, BN_bn2bin, BN_bn2bin_padded, BN_num_bytes, EC_GROUP, EC_KEY, EC_KEY_get0_private_key,
     EC_KEY_get0_public_key, EC_KEY_new, EC_KEY_set_group, EC_KEY_set_private_key,
     EC_KEY_set_public_key, EC_POINT, EC_POINT_mul, EC_POINT_new, EC_POINT_oct2point,
     EC_POINT_point2oct, EC_group_p384, ECDH_compute_key, ECDSA_SIG, ECDSA_SIG_from_bytes,
@@ -214,17 +214,15 @@ impl Signature {
         let mut s = null();
         unsafe { ECDSA_SIG_get0(*sig.as_const(), &raw mut r, &raw mut s) };
 
-        if unsafe { BN_num_bytes(r) } != 48 || unsafe { BN_num_bytes(s) } != 48 {
-            return Err(PasetoError::CryptoError);
-        }
-
+        // r and s are written as fixed-width 48-byte big-endian integers: values with leading
+        // zero bytes are valid and must be left-padded, not rejected.
         out.reserve(48 + 48);
         let len = out.len();
-        let ptr = out.spare_capacity_mut().as_mut_ptr().cast();
-        if unsafe { BN_bn2bin(r, ptr) } != 48 {
+        let ptr: *mut u8 = out.spare_capacity_mut().as_mut_ptr().cast();
+        if unsafe { BN_bn2bin_padded(ptr, 48, r) } != 1 {
             return Err(PasetoError::CryptoError);
         }
-        if unsafe { BN_bn2bin(s, ptr.add(48)) } != 48 {
+        if unsafe { BN_bn2bin_padded(ptr.add(48), 48, s) } != 1 {
             return Err(PasetoError::CryptoError);
         }
         unsafe { out.set_len(len + 48 + 48) };
